@@ -446,4 +446,279 @@ theorem parse_print (v : JVal) : parse v.print = some v := by
   rw [List.append_nil] at h
   simp [parse, h, skipWs]
 
+/-! ### any layout: blanks between the tokens do not change what is read -/
+
+/-- a run of blanks (space, tab, LF, CR) -/
+def Blank (b : S) : Prop := ∀ c ∈ b, isWs c = true
+
+/-- a layout that puts only blanks between tokens -/
+structure BlankLayout (L : Layout) : Prop where
+  opn : ∀ d, Blank (L.opn d)
+  cls : ∀ d, Blank (L.cls d)
+  col : Blank L.col
+
+theorem skipWs_blank : ∀ (b t : S), Blank b → skipWs (b ++ t) = skipWs t
+  | [], _, _ => rfl
+  | c :: b, t, h => by
+    have hc : isWs c = true := h c (by simp)
+    simp only [List.cons_append, skipWs, hc, if_true]
+    exact skipWs_blank b t (fun x hx => h x (by simp [hx]))
+
+theorem skipWs_blank_cons (b : S) (c : Nat) (t : S) (hb : Blank b) (hc : isWs c = false) :
+    skipWs (b ++ c :: t) = c :: t := by
+  rw [skipWs_blank b _ hb, skipWs_cons c t hc]
+
+/-- what may follow a value under a layout: nothing, `,`, `]`, `}` or a blank -/
+def DelimB (rest : S) : Prop := ∀ c r, rest = c :: r → c = 44 ∨ c = 93 ∨ c = 125 ∨ isWs c = true
+
+theorem DelimB.numEnd {rest : S} (h : DelimB rest) : NumEnd rest := by
+  intro c r e
+  rcases h c r e with rfl | rfl | rfl | hw
+  · decide
+  · decide
+  · decide
+  · simp only [isWs, Bool.or_eq_true, beq_iff_eq] at hw
+    rcases hw with ((rfl | rfl) | rfl) | rfl <;> decide
+
+theorem delimB_of_blank_cons (b : S) (c : Nat) (t : S) (hb : Blank b) (hc : c = 44 ∨ c = 93 ∨ c = 125) :
+    DelimB (b ++ c :: t) := by
+  intro c' r e
+  cases b with
+  | nil => simp at e; rcases hc with h | h | h <;> simp [← e.1, h]
+  | cons x b' => simp at e; exact Or.inr (Or.inr (Or.inr (by rw [← e.1]; exact hb x (by simp))))
+
+theorem delimB_tailL (L : Layout) (hL : BlankLayout L) (d : Nat) (xs : List JVal) (rest : S) :
+    DelimB (JVal.printTailL L d xs ++ rest) := by
+  cases xs with
+  | nil =>
+    simp only [JVal.printTailL, List.append_assoc, List.cons_append, List.nil_append]
+    exact delimB_of_blank_cons _ 93 _ (hL.cls d) (by simp)
+  | cons x xs =>
+    simp only [JVal.printTailL, List.cons_append]
+    exact delimB_of_blank_cons [] 44 _ (by intro c hc; cases hc) (by simp)
+
+theorem delimB_membersTailL (L : Layout) (hL : BlankLayout L) (d : Nat) (ms : List (S × JVal)) (rest : S) :
+    DelimB (JVal.printMembersTailL L d ms ++ rest) := by
+  cases ms with
+  | nil =>
+    simp only [JVal.printMembersTailL, List.append_assoc, List.cons_append, List.nil_append]
+    exact delimB_of_blank_cons _ 125 _ (hL.cls d) (by simp)
+  | cons m ms =>
+    cases m
+    simp only [JVal.printMembersTailL, List.cons_append]
+    exact delimB_of_blank_cons [] 44 _ (by intro c hc; cases hc) (by simp)
+
+/-- a value starts with the same character under every layout -/
+theorem printL_head (L : Layout) (d : Nat) (v : JVal) :
+    ∃ c t, JVal.printL L d v = c :: t ∧ isWs c = false ∧ c ≠ 93 ∧ c ≠ 125 := by
+  cases v with
+  | null => exact ⟨110, [117, 108, 108], by rw [JVal.printL], by decide, by decide, by decide⟩
+  | bool b =>
+    cases b
+    · exact ⟨102, [97, 108, 115, 101], by rw [JVal.printL], by decide, by decide, by decide⟩
+    · exact ⟨116, [114, 117, 101], by rw [JVal.printL], by decide, by decide, by decide⟩
+  | num n =>
+    obtain ⟨c, t, hc, h1, h2, h3⟩ := print_head (.num n)
+    rw [JVal.print] at hc
+    exact ⟨c, t, by rw [JVal.printL, hc], h1, h2, h3⟩
+  | str s => exact ⟨34, escJson s ++ [34], by rw [JVal.printL, quoteJson], by decide, by decide, by decide⟩
+  | arr xs =>
+    cases xs with
+    | nil => exact ⟨91, [93], by rw [JVal.printL], by decide, by decide, by decide⟩
+    | cons x xs => exact ⟨91, _, by rw [JVal.printL], by decide, by decide, by decide⟩
+  | obj kvs =>
+    cases kvs with
+    | nil => exact ⟨123, [125], by rw [JVal.printL], by decide, by decide, by decide⟩
+    | cons m ms =>
+      cases m with
+      | mk k v => exact ⟨123, _, by rw [JVal.printL], by decide, by decide, by decide⟩
+
+theorem value_skip (f : Nat) (b t : S) (hb : Blank b) : value f (b ++ t) = value f t := by
+  cases f with
+  | zero => rfl
+  | succ f => rw [value, value, skipWs_blank b t hb]
+
+theorem members_skip (f : Nat) (b t : S) (acc : List (S × JVal)) (hb : Blank b) :
+    members f (b ++ t) acc = members f t acc := by
+  cases f with
+  | zero => rfl
+  | succ f => rw [members, members, skipWs_blank b t hb]
+
+mutual
+/-- every value printed under a blank-only layout is read back -/
+theorem value_printL (L : Layout) (hL : BlankLayout L) : ∀ (v : JVal) (d f : Nat) (rest : S), need v ≤ f → DelimB rest →
+    value f (JVal.printL L d v ++ rest) = some (v, rest)
+  | .null, d, f, rest, hf, _ => by
+    obtain ⟨f, rfl⟩ : ∃ g, f = g + 1 := ⟨f - 1, by simp [need] at hf; omega⟩
+    rw [JVal.printL, value]; simp [skipWs_cons 110 _ (by decide)]
+  | .bool true, d, f, rest, hf, _ => by
+    obtain ⟨f, rfl⟩ : ∃ g, f = g + 1 := ⟨f - 1, by simp [need] at hf; omega⟩
+    rw [JVal.printL, value]; simp [skipWs_cons 116 _ (by decide)]
+  | .bool false, d, f, rest, hf, _ => by
+    obtain ⟨f, rfl⟩ : ∃ g, f = g + 1 := ⟨f - 1, by simp [need] at hf; omega⟩
+    rw [JVal.printL, value]; simp [skipWs_cons 102 _ (by decide)]
+  | .str s, d, f, rest, hf, _ => by
+    obtain ⟨f, rfl⟩ : ∃ g, f = g + 1 := ⟨f - 1, by simp [need] at hf; omega⟩
+    rw [JVal.printL, quoteJson, value]
+    simp [skipWs_cons 34 _ (by decide), readStr_quote]
+  | .num n, d, f, rest, hf, hd => by
+    obtain ⟨f, rfl⟩ : ∃ g, f = g + 1 := ⟨f - 1, by simp [need] at hf; omega⟩
+    have hnum := readNum_int n rest hd.numEnd
+    obtain ⟨c, t, hc, hws, _, _⟩ := print_head (.num n)
+    rw [JVal.print] at hc
+    rw [JVal.printL]
+    rw [hc] at hnum ⊢
+    have hcases : c = 45 ∨ (48 ≤ c ∧ c ≤ 57) := by
+      unfold intDigits at hc
+      obtain ⟨d', t', hd', hlt⟩ := natDigits_head n.natAbs
+      by_cases hneg : n < 0
+      · rw [if_pos hneg] at hc; simp at hc; omega
+      · rw [if_neg hneg, hd'] at hc; simp at hc; omega
+    rw [value]
+    simp only [List.cons_append, skipWs_cons c _ hws]
+    have h1 : (c == 34) = false := by simp; omega
+    have h2 : (c == 91) = false := by simp; omega
+    have h3 : (c == 123) = false := by simp; omega
+    have h4 : (c == 110) = false := by simp; omega
+    have h5 : (c == 116) = false := by simp; omega
+    have h6 : (c == 102) = false := by simp; omega
+    simp only [h1, h2, h3, h4, h5, h6, Bool.false_eq_true, if_false]
+    simpa using hnum
+  | .arr [], d, f, rest, hf, _ => by
+    obtain ⟨f, rfl⟩ : ∃ g, f = g + 1 := ⟨f - 1, by simp [need] at hf; omega⟩
+    rw [JVal.printL, value]
+    simp [skipWs_cons 91 _ (by decide), skipWs_cons 93 _ (by decide)]
+  | .arr (x :: xs), d, f, rest, hf, _ => by
+    obtain ⟨f, rfl⟩ : ∃ g, f = g + 1 := ⟨f - 1, by simp [need] at hf; omega⟩
+    have hE := elems_printL L hL xs x d (value_printL L hL x (d + 1)) f [] rest (by simp [need, needList] at hf ⊢; omega)
+    obtain ⟨c, t, hc, hws, h93, _⟩ := printL_head L (d + 1) x
+    rw [JVal.printL, value]
+    simp only [List.cons_append, skipWs_cons 91 _ (by decide)]
+    rw [hc] at hE ⊢
+    simp only [List.cons_append, List.append_assoc] at hE ⊢
+    have h93' : (c == 93) = false := by simp [h93]
+    have hsk := skipWs_blank_cons (L.opn d) c (t ++ (JVal.printTailL L d xs ++ rest)) (hL.opn d) hws
+    simp [hsk, h93']
+    simpa using hE
+  | .obj [], d, f, rest, hf, _ => by
+    obtain ⟨f, rfl⟩ : ∃ g, f = g + 1 := ⟨f - 1, by simp [need] at hf; omega⟩
+    rw [JVal.printL, value]
+    simp [skipWs_cons 123 _ (by decide), skipWs_cons 125 _ (by decide)]
+  | .obj ((k, v) :: ms), d, f, rest, hf, _ => by
+    obtain ⟨f, rfl⟩ : ∃ g, f = g + 1 := ⟨f - 1, by simp [need] at hf; omega⟩
+    have hM := members_printL L hL ms k v d (value_printL L hL v (d + 1)) f [] rest (by simp [need, needMembers] at hf ⊢; omega)
+    rw [JVal.printL, value]
+    simp only [List.cons_append, skipWs_cons 123 _ (by decide), quoteJson, List.append_assoc]
+    have hsk := skipWs_blank_cons (L.opn d) 34
+      (escJson k ++ 34 :: 58 :: (L.col ++ (JVal.printL L (d + 1) v ++ (JVal.printMembersTailL L d ms ++ rest)))) (hL.opn d) (by decide)
+    simp [hsk]
+    simpa using hM
+/-- the element loop under a layout -/
+theorem elems_printL (L : Layout) (hL : BlankLayout L) : ∀ (xs : List JVal) (x : JVal) (d : Nat)
+    (_ : ∀ (f : Nat) (rest : S), need x ≤ f → DelimB rest → value f (JVal.printL L (d + 1) x ++ rest) = some (x, rest))
+    (f : Nat) (acc : List JVal) (rest : S), 1 + need x + needList xs ≤ f →
+    elems f (JVal.printL L (d + 1) x ++ (JVal.printTailL L d xs ++ rest)) acc = some (.arr (acc.reverse ++ x :: xs), rest)
+  | [], x, d, hx, f, acc, rest, hf => by
+    obtain ⟨f, rfl⟩ : ∃ g, f = g + 1 := ⟨f - 1, by omega⟩
+    have h1 := hx f (JVal.printTailL L d [] ++ rest) (by simp [needList] at hf; omega) (delimB_tailL L hL d [] rest)
+    rw [elems_step f x _ _ acc h1]
+    simp only [JVal.printTailL, List.append_assoc, List.cons_append, List.nil_append]
+    rw [skipWs_blank_cons (L.cls d) 93 _ (hL.cls d) (by decide)]
+    simp
+  | y :: ys, x, d, hx, f, acc, rest, hf => by
+    obtain ⟨f, rfl⟩ : ∃ g, f = g + 1 := ⟨f - 1, by omega⟩
+    have h1 := hx f (JVal.printTailL L d (y :: ys) ++ rest) (by simp [needList] at hf; omega) (delimB_tailL L hL d (y :: ys) rest)
+    rw [elems_step f x _ _ acc h1]
+    have ih := elems_printL L hL ys y d (value_printL L hL y (d + 1)) f (x :: acc) rest (by simp [needList] at hf ⊢; omega)
+    simp only [JVal.printTailL, List.cons_append, List.append_assoc, skipWs_cons 44 _ (by decide)]
+    cases f with
+    | zero => simp [needList] at hf; omega
+    | succ f =>
+      rw [elems, value_skip f (L.opn d) _ (hL.opn d)] at *
+      simpa using ih
+/-- the member loop under a layout -/
+theorem members_printL (L : Layout) (hL : BlankLayout L) : ∀ (ms : List (S × JVal)) (k : S) (v : JVal) (d : Nat)
+    (_ : ∀ (f : Nat) (rest : S), need v ≤ f → DelimB rest → value f (JVal.printL L (d + 1) v ++ rest) = some (v, rest))
+    (f : Nat) (acc : List (S × JVal)) (rest : S), 1 + need v + needMembers ms ≤ f →
+    members f (34 :: (escJson k ++ 34 :: 58 :: (L.col ++ (JVal.printL L (d + 1) v ++ (JVal.printMembersTailL L d ms ++ rest))))) acc
+      = some (.obj (acc.reverse ++ (k, v) :: ms), rest)
+  | [], k, v, d, hv, f, acc, rest, hf => by
+    obtain ⟨f, rfl⟩ : ∃ g, f = g + 1 := ⟨f - 1, by omega⟩
+    have h1 := hv f (JVal.printMembersTailL L d [] ++ rest) (by simp [needMembers] at hf; omega) (delimB_membersTailL L hL d [] rest)
+    rw [← value_skip f L.col _ hL.col] at h1
+    rw [members_step f k v _ _ _ acc (readStr_quote k _) h1]
+    simp only [JVal.printMembersTailL, List.append_assoc, List.cons_append, List.nil_append]
+    rw [skipWs_blank_cons (L.cls d) 125 _ (hL.cls d) (by decide)]
+    simp
+  | (k', v') :: ms, k, v, d, hv, f, acc, rest, hf => by
+    obtain ⟨f, rfl⟩ : ∃ g, f = g + 1 := ⟨f - 1, by omega⟩
+    have h1 := hv f (JVal.printMembersTailL L d ((k', v') :: ms) ++ rest) (by simp [needMembers] at hf; omega)
+      (delimB_membersTailL L hL d ((k', v') :: ms) rest)
+    rw [← value_skip f L.col _ hL.col] at h1
+    rw [members_step f k v _ _ _ acc (readStr_quote k _) h1]
+    have ih := members_printL L hL ms k' v' d (value_printL L hL v' (d + 1)) f ((k, v) :: acc) rest (by simp [needMembers] at hf ⊢; omega)
+    simp only [JVal.printMembersTailL, quoteJson, List.cons_append, List.append_assoc, skipWs_cons 44 _ (by decide)]
+    rw [members_skip f (L.opn d) _ _ (hL.opn d)]
+    simpa using ih
+end
+
+mutual
+theorem needL_le (L : Layout) : ∀ (v : JVal) (d : Nat), need v ≤ (JVal.printL L d v).length
+  | .null, d => by simp [need, JVal.printL]
+  | .bool b, d => by
+    obtain ⟨c, t, hc, _⟩ := printL_head L d (.bool b); simp [need, hc]
+  | .num n, d => by
+    obtain ⟨c, t, hc, _⟩ := printL_head L d (.num n); simp [need, hc]
+  | .str s, d => by
+    obtain ⟨c, t, hc, _⟩ := printL_head L d (.str s); simp [need, hc]
+  | .arr [], d => by simp [need, needList, JVal.printL]
+  | .arr (x :: xs), d => by
+    have h1 := needL_le L x (d + 1)
+    have h2 := needListL_le L xs d
+    simp only [need, needList, JVal.printL, List.length_cons, List.length_append]
+    omega
+  | .obj [], d => by simp [need, needMembers, JVal.printL]
+  | .obj ((k, v) :: ms), d => by
+    have h1 := needL_le L v (d + 1)
+    have h2 := needMembersL_le L ms d
+    simp only [need, needMembers, JVal.printL, List.length_cons, List.length_append]
+    omega
+theorem needListL_le (L : Layout) : ∀ (xs : List JVal) (d : Nat), needList xs + 1 ≤ (JVal.printTailL L d xs).length
+  | [], d => by simp [needList, JVal.printTailL]
+  | x :: xs, d => by
+    have h1 := needL_le L x (d + 1)
+    have h2 := needListL_le L xs d
+    simp only [needList, JVal.printTailL, List.length_cons, List.length_append]
+    omega
+theorem needMembersL_le (L : Layout) : ∀ (ms : List (S × JVal)) (d : Nat),
+    needMembers ms + 1 ≤ (JVal.printMembersTailL L d ms).length
+  | [], d => by simp [needMembers, JVal.printMembersTailL]
+  | (k, v) :: ms, d => by
+    have h1 := needL_le L v (d + 1)
+    have h2 := needMembersL_le L ms d
+    simp only [needMembers, JVal.printMembersTailL, List.length_cons, List.length_append]
+    omega
+end
+
+/-- THE TEXT ROUND TRIP UNDER ANY LAYOUT: blanks after `[` `{` `,` `:` and before `]` `}` do not change what is read -/
+theorem parse_printL (L : Layout) (hL : BlankLayout L) (v : JVal) (d : Nat) : parse (JVal.printL L d v) = some v := by
+  have h := value_printL L hL v d ((JVal.printL L d v).length + 8) [] (by have := needL_le L v d; omega)
+    (by intro c r e; cases e)
+  rw [List.append_nil] at h
+  simp [parse, h, skipWs]
+
+theorem blank_replicate (n : Nat) : Blank (10 :: List.replicate n 32) := by
+  intro c hc
+  simp only [List.mem_cons, List.mem_replicate] at hc
+  rcases hc with rfl | ⟨_, rfl⟩ <;> decide
+
+theorem indentLayout_blank : BlankLayout indentLayout where
+  opn := fun d => blank_replicate (d + 1)
+  cls := fun d => blank_replicate d
+  col := by intro c hc; simp [indentLayout] at hc; subst hc; decide
+
+/-- `json.MarshalIndent`'s layout (what `polyjson.Write` stores) is read back -/
+theorem parse_printIndent (v : JVal) : parse v.printIndent = some v :=
+  parse_printL indentLayout indentLayout_blank v 0
+
 end PolyVerif.JsonText
